@@ -37,8 +37,10 @@ VARIANTS = {
     # _GLIBCXX_ASSERTIONS still checks every std::vector::operator[] against size())
     "asan": ["-fsanitize=address,undefined", "-fno-sanitize-recover=all"],
     "tsan": ["-fsanitize=thread"],
+    # same as asan plus coverage instrumentation of the library code for libFuzzer targets
+    "asanfuzz": ["-fsanitize=address,undefined", "-fno-sanitize-recover=all", "-fsanitize=fuzzer-no-link"],
 }
-ADAPTER_TYPES = {"asan": list(range(9)), "tsan": list(range(9))}
+ADAPTER_TYPES = {"asan": list(range(9)), "tsan": list(range(9)), "asanfuzz": list(range(9))}
 
 SAN_ENV = {
     "ASAN_OPTIONS": "exitcode=77:detect_leaks=0:abort_on_error=0:allocator_may_return_null=1:detect_stack_use_after_return=1",
@@ -55,9 +57,9 @@ CONFIG = {
     "C14": {"quick": {"shards": 8, "n": 1200, "scale": 24, "arg": 10}, "thorough": {"shards": 16, "n": 6000, "scale": 60, "arg": 24}},
     "C12": {"quick": {"shards": 8, "n": 3000, "scale": 24, "arg": 8}, "thorough": {"shards": 16, "n": 20000, "scale": 40, "arg": 16}},
     "C13": {"quick": {"shards": 8, "n": 3000, "scale": 24, "arg": 8}, "thorough": {"shards": 16, "n": 20000, "scale": 40, "arg": 16}},
-    "C09": {"quick": {"shards": 8, "n": 1500, "scale": 30, "arg": 8}, "thorough": {"shards": 16, "n": 10000, "scale": 50, "arg": 16}},
-    "C16": {"quick": {"shards": 8, "n": 1500, "scale": 24, "arg": 8}, "thorough": {"shards": 16, "n": 10000, "scale": 40, "arg": 16}},
-    "C15": {"quick": {"shards": 8, "n": 2500, "scale": 24, "arg": 12}, "thorough": {"shards": 16, "n": 15000, "scale": 40, "arg": 24}},
+    "C09": {"fuzz_s": 120, "quick": {"shards": 8, "n": 1500, "scale": 30, "arg": 8}, "thorough": {"shards": 16, "n": 10000, "scale": 50, "arg": 16}},
+    "C16": {"fuzz_s": 90, "quick": {"shards": 8, "n": 1500, "scale": 24, "arg": 8}, "thorough": {"shards": 16, "n": 10000, "scale": 40, "arg": 16}},
+    "C15": {"fuzz_s": 120, "quick": {"shards": 8, "n": 2500, "scale": 24, "arg": 12}, "thorough": {"shards": 16, "n": 15000, "scale": 40, "arg": 24}},
     "C10": {"variants": ["asan", "tsan"],
             "quick": {"shards": 4, "n": 150, "scale": 20, "arg": 12, "max_size": 100},
             "thorough": {"shards": 6, "n": 3000, "scale": 30, "arg": 20, "max_size": 100}},
@@ -68,9 +70,9 @@ CONFIG = {
     "C03": {"quick": {"shards": 8, "n": 4000, "scale": 20, "arg": 10}, "thorough": {"shards": 16, "n": 25000, "scale": 40, "arg": 24}},
     "C04": {"quick": {"shards": 8, "n": 5000, "scale": 20, "arg": 10}, "thorough": {"shards": 16, "n": 30000, "scale": 40, "arg": 24}},
     "C05": {"quick": {"shards": 8, "n": 4000, "scale": 20, "arg": 10}, "thorough": {"shards": 16, "n": 25000, "scale": 40, "arg": 24}},
-    "C06": {"quick": {"shards": 8, "n": 3000, "scale": 24, "arg": 10}, "thorough": {"shards": 16, "n": 20000, "scale": 40, "arg": 24}},
+    "C06": {"fuzz_s": 90, "quick": {"shards": 8, "n": 3000, "scale": 24, "arg": 10}, "thorough": {"shards": 16, "n": 20000, "scale": 40, "arg": 24}},
     "C19": {"quick": {"shards": 8, "n": 3000, "scale": 24, "arg": 10}, "thorough": {"shards": 16, "n": 20000, "scale": 40, "arg": 24}},
-    "C01": {"quick": {"shards": 8, "n": 5000, "scale": 20, "arg": 10},
+    "C01": {"fuzz_s": 120, "quick": {"shards": 8, "n": 5000, "scale": 20, "arg": 10},
             "thorough": {"shards": 16, "n": 10000, "scale": 40, "arg": 24}},
     "C02": {"quick": {"shards": 8, "n": 2000, "scale": 20, "arg": 10},
             "thorough": {"shards": 16, "n": 5000, "scale": 40, "arg": 24}},
@@ -90,6 +92,12 @@ def conf(pid):
             c[k].update(v)
         else:
             c[k] = v
+    # smoke-test overrides (not used by the registered commands)
+    if os.environ.get("VERIF_FUZZ_S") and c.get("fuzz_s", 0) > 0:
+        c["fuzz_s"] = int(os.environ["VERIF_FUZZ_S"])
+    if os.environ.get("VERIF_N_DIV"):
+        for t in ("quick", "thorough"):
+            c[t]["n"] = max(10, c[t]["n"] // int(os.environ["VERIF_N_DIV"]))
     return c
 
 
@@ -235,7 +243,7 @@ def build(pid, variant=None, fuzz=False, quiet=False):
                     pass
         if not quiet:
             sys.stderr.write("[build] %s%s (%s) in %.0fs\n" % (pid, " fuzz" if fuzz else "", variant, time.time() - t0))
-        prune_build_dirs({bdir, build_dir("asan"), build_dir("tsan")})
+        prune_build_dirs({bdir, build_dir("asan"), build_dir("tsan"), build_dir("asanfuzz")})
         return binary
     finally:
         fcntl.flock(lock, fcntl.LOCK_UN)
@@ -385,6 +393,39 @@ def run_enum_shard(binary, pid, k, nshards, total, outdir, known, tcfg):
     return {"shard": 1000 + k, "rc": rc, "stderr": se[-20000:], "out": out, "wall": time.time() - t0, "enum": (lo, hi)}
 
 
+def run_fuzz_instance(binary, pid, k, seed, seconds, outdir, known, arg):
+    """One libFuzzer instance (coverage-guided mutation of the same byte-string case format)."""
+    d = os.path.join(outdir, "fuzz_%d" % k)
+    cdir = os.path.join(d, "corpus")
+    os.makedirs(cdir)
+    for f in glob.glob(os.path.join(VERIF, "corpus", pid, "*.bin")):
+        shutil.copy(f, cdir)
+    # half of the instances start from an empty corpus (see the guidance: both can matter)
+    if k % 2 == 1:
+        for f in glob.glob(os.path.join(cdir, "*")):
+            os.remove(f)
+    env = env_for_run()
+    env["VH_FUZZ_OUT"] = os.path.join(d, "stats.json")
+    env["VH_KNOWN"] = ",".join(known)
+    env["VH_SIZE_ARG"] = str(arg)
+    cmd = [binary, cdir, "-max_total_time=%d" % seconds, "-max_len=6000", "-seed=%d" % (shard_seed(seed, 500 + k, pid) % 2147483647),
+           "-print_final_stats=1", "-artifact_prefix=%s/art-" % d, "-timeout=60", "-rss_limit_mb=6000", "-detect_leaks=0", "-verbosity=0"]
+    try:
+        r = subprocess.run(cmd, stdout=subprocess.PIPE, stderr=subprocess.PIPE, text=True, errors="replace", env=env, timeout=seconds + 300)
+        rc, se = r.returncode, r.stderr
+    except subprocess.TimeoutExpired:
+        rc, se = -999, "TIMEOUT"
+    execs = 0
+    for line in se.splitlines():
+        if "stat::number_of_executed_units" in line:
+            try:
+                execs = int(line.split(":")[-1].strip())
+            except ValueError:
+                pass
+    arts = [a for a in glob.glob(os.path.join(d, "art-*")) if os.path.basename(a).startswith(("art-crash", "art-leak"))]
+    return {"shard": 2000 + k, "rc": 0 if not arts else 1, "fuzz_rc": rc, "stderr": se[-20000:], "out": os.path.join(d, "stats.json"), "execs": execs, "artifacts": arts}
+
+
 def merge_shards(results):
     agg = {"evaluations": 0, "passed": 0, "nontrivial": 0, "discards": 0, "labels": {}, "discard_reasons": {},
            "known_excluded": {}, "hashes": set(), "samples": [], "violations": [], "distinct_all": 0}
@@ -526,7 +567,13 @@ def check(pid, tier):
         r["binary"] = j[0]
         r["variant"] = j[2]
     results = enum_results + results
-    agg = merge_shards(results)
+    fuzz_results = []
+    if tier == "thorough" and cfg.get("fuzz_s", 0) > 0:
+        fb = build(pid, "asanfuzz", fuzz=True)
+        ninst = cfg.get("fuzz_instances", 8)
+        with ThreadPoolExecutor(max_workers=NCPU) as ex:
+            fuzz_results = list(ex.map(lambda k: run_fuzz_instance(fb, pid, k, seed, cfg["fuzz_s"], outdir, known, tcfg.get("arg", 0)), range(ninst)))
+    agg = merge_shards(results + fuzz_results)
     dead = [r for r in results if is_crash(r["rc"])]
     inconclusive = [r for r in results if r["rc"] == 89]
     for r in inconclusive:
@@ -582,6 +629,21 @@ def check(pid, tier):
         else:
             sys.stderr.write(r["stderr"][-4000:] + "\n")
             violations.append((p, "process died: %s (reproduces only sometimes; output above) | case: %s" % (sig, desc)))
+    # libFuzzer artifacts: only crash-/leak- files count (slow-unit / oom / timeout are load noise);
+    # each is replayed with the ordinary replay binary before it is reported
+    fuzz_execs = 0
+    for fr in fuzz_results:
+        fuzz_execs += fr["execs"]
+        for a in fr["artifacts"][:2]:
+            data = open(a, "rb").read()
+            p = save_replay(pid, data, "fuzz")
+            ok, last = confirm_violation(binary, p, known)
+            if ok:
+                rc2, so2, se2 = replay_once(binary, p, known)
+                lines = [l for l in so2.splitlines() if l.startswith(("RESULT", "CASE"))]
+                violations.append((p, "found by libFuzzer: %s" % (" | ".join(l[:500] for l in lines) or crash_signature(rc2, se2))))
+            else:
+                notes.append("a libFuzzer artifact does not fail in the replay binary (not reported): %s" % p)
     shutil.rmtree(outdir, ignore_errors=True)
 
     agg["evaluations"] += corpus_runs
@@ -590,6 +652,9 @@ def check(pid, tier):
              "variants": {v: VARIANTS[v] for v in variants}, "build": [os.path.basename(os.path.dirname(binaries[v])) for v in variants],
              "dead_shards": len(dead), "inconclusive_shards": len(inconclusive), "planned_cases": expected,
              "shard_exit_codes": [r["rc"] for r in results]}
+    if fuzz_results:
+        extra["libfuzzer"] = {"instances": len(fuzz_results), "seconds_each": cfg["fuzz_s"], "executions": fuzz_execs,
+                              "note": "coverage-guided mutation of the same byte-string cases; executions are included in 'evaluations' through the target's own counters"}
     if cfg.get("enum"):
         enum_done = all(r["rc"] == 0 for r in enum_results)
         extra["enumerated_cases"] = enum_total
